@@ -234,7 +234,9 @@ def run(ctx):
         "operators, every result shape x every target shape h x w <= 4x4 for fit_to_range, every compatible "
         "operand pair x every target end to end in a workbook; element values sampled by the PRNG from "
         "numbers (ints, dyadic floats), text, logicals, blank and the error codes; lifted functions MOD, "
-        "ROUND, LEFT, IF and a probe function through apply_meta with array/scalar argument mixes; "
+        "ROUND, LEFT, IF and a probe function through apply_meta with array/scalar argument mixes; every cell "
+        "of every end-to-end target against the member-cell model; ranges around two adjacent array formulas "
+        "(same text, extended text, other text; horizontal or vertical; reference sizes up to 3x3); "
         "distinct = distinct (call, shapes, values)")
 
     # ================================================= 1. fit_to_range
